@@ -254,6 +254,11 @@ func (i *Interpreter) executeReassign(stmt ReassignStatement, env *Environment) 
 		return nil, fmt.Errorf("cannot reassign constant '%s'", stmt.Target)
 	}
 
+	// A module-level function is as immutable as a constant
+	if _, isFn := i.functions[stmt.Target]; isFn && i.boundInModuleScope(stmt.Target, env) {
+		return nil, fmt.Errorf("cannot reassign function '%s'", stmt.Target)
+	}
+
 	value, err := i.EvaluateExpression(stmt.Value, env)
 	if err != nil {
 		return nil, err
